@@ -275,10 +275,7 @@ func propUniformBytes(t *rapid.T) {
 	stat.Case("uniform", cl, true, append([]byte("u|"), src...), func() any {
 		return map[string]any{"u": u.Text(16), "kind": kind, "len": n, "src": stat.Hex(src)}
 	})
-	rcv := secp256k1.NewIdentityPoint()
-	if rapid.Bool().Draw(t, "zero-rcv") {
-		rcv = &secp256k1.Point{}
-	}
+	rcv, _ := lib.Receiver(rapid.IntRange(0, lib.ReceiverKinds-1).Draw(t, "rcv"))
 	ret := rcv.SetUniformBytes(src)
 	if ret != rcv {
 		t.Fatal("returned pointer is not the receiver")
